@@ -11,7 +11,8 @@ GEN_KEYS = ['core']
 M = 'MorphKgc.Props.C08'
 THEOREMS = [{'name': f'Props.C08.{n}', 'module': M} for n in [
     'C08_graph_terms', 'C08_null_graph_places_nothing', 'C08_default_graph_iff', 'C08_projection_spec', 'C08_projection',
-    'C08_class_gets_subject_graphs']]
+    'C08_class_gets_subject_graphs', 'C08_graph_terms_append', 'C08_graph_terms_one_side', 'C08_graph_terms_comm',
+    'C08_graph_terms_congr', 'C08_graph_terms_length']]
 # the triple assembly and graph-term code of `_materialize_rml_rule`, translated from /repo, is equal to Model.rowTriple
 THEOREMS += [{'name': 'Props.CoreFuncs.rowTriple_eq', 'module': 'MorphKgc.Props.CoreFuncs'}]
 RULE = ('documents with 0-2 constant / template / reference graph maps on subject maps and on predicate-object maps, rr:defaultGraph alone and '
